@@ -9,7 +9,7 @@ Line protocol of property C14 (see `harness/corr/c14.go` for the Go side).
 that the palette indices of the log scalers can be compared exactly.  `math.Pow` (heatmap legend of a
 log scale) is not ported: both sides replace that one line by `~`.
 
-Ops: `scale`, `barw`, `stack`, `cell`, `strlen`, `hdr`, `tablew`, `render histo|bars|table|heat|spark`.
+Ops: `scale`, `barw`, `stack`, `cell`, `strlen`, `hdr`, `tablew`, `render histo|histo2|bars|table|heat|spark|reduce`.
 -/
 namespace Rare.Drv.C14
 open Rare Rare.C14 Rare.C20 Rare.Proto
@@ -89,24 +89,32 @@ def A := floatArith
 
 def nat! (i : Int) : Nat := i.toNat
 
-def renderHisto (env : Env) (sc : Scaler) (fm : Fmt) (bar pct : Bool) (maxLines : Int) (keys : List Bytes)
+/-- `atLeast`: the `--atleast` flag; `all`: also the `--all` listing (a second writer with one line per
+group into a fresh VirtualTerm), appended after a `~~` marker line -/
+def renderHisto (env : Env) (sc : Scaler) (fm : Fmt) (bar pct : Bool) (maxLines : Int) (atLeast : Int) (all : Bool) (keys : List Bytes)
     (phases : List (List (List Int))) : Res String := do
   let h ← Histo.new maxLines bar pct sc fm
-  let (_, _, vt) ← phases.foldlM (fun (st : Cells × Histo × VirtualTerm) ph => do
+  let topItems (cells : Cells) (count : Int) : Res (List (Bytes × Int)) := do
+    -- counter.ItemsSortedBy(count, sorter)
+    let present := cells.rows
+    let items ← if (present.length : Int) < count then pure present else sliceTo present count
+    pure (items.map fun k => (keyAt keys k, cells.value k 0))
+  let (cells, _, vt) ← phases.foldlM (fun (st : Cells × Histo × VirtualTerm) ph => do
     let cells := ph.foldl (fun (c : Cells) sm => match sm with
       | [k, inc] => c.sample (nat! k) 0 inc
       | _ => c) st.1
-    -- cmd/histo.go writeHistoOutput
-    let present := cells.rows
-    let items ← if (present.length : Int) < maxLines then pure present else sliceTo present maxLines
-    let total := cells.sum
-    let (h, vt) ← st.2.1.updateTotal A env st.2.2 total
-    let (h, vt, _) ← items.foldlM (fun (s : Histo × VirtualTerm × Int) k => do
-      let (h, vt) ← s.1.writeForLine A env s.2.1 s.2.2 (keyAt keys k) (cells.value k 0)
-      pure (h, vt, s.2.2 + 1)) (h, vt, (0 : Int))
+    let items ← topItems cells maxLines
+    let (h, vt) ← st.2.1.writeOutput A env st.2.2 items cells.sum atLeast
     let vt ← h.writeFooter vt 0 (ascii "F")
     pure (cells, h, vt)) (([] : Cells), h, VirtualTerm.new)
-  pure (okLines vt)
+  if all then
+    -- cmd/histo.go `--all`: NewHistogram(vterm, counter.GroupCount()) with the default settings
+    let n : Int := cells.rows.length
+    let h2 ← Histo.new n true true .linear .hi
+    let items ← topItems cells n
+    let (_, vt2) ← h2.writeOutput A env VirtualTerm.new items cells.sum atLeast
+    pure ("ok " ++ hexList (vt.lines ++ [ascii "~~"] ++ vt2.lines))
+  else pure (okLines vt)
 
 def renderBars (env : Env) (sc : Scaler) (fm : Fmt) (stacked : Bool) (barSize : Int) (keys subs : List Bytes)
     (phases : List (List (List Int))) : Res String := do
@@ -115,12 +123,9 @@ def renderBars (env : Env) (sc : Scaler) (fm : Fmt) (stacked : Bool) (barSize : 
     let cells := ph.foldl (fun (c : Cells) sm => match sm with
       | [k, s, inc] => c.sample (nat! k) (nat! s) inc
       | _ => c) st.1
-    -- cmd/bargraph.go
     let subIdx := cells.cols
-    let (g, vt) ← st.2.1.setKeys env st.2.2 (subIdx.map (keyAt subs))
-    let (g, vt, _) ← cells.rows.foldlM (fun (s : BarGraph × VirtualTerm × Int) k => do
-      let (g, vt) ← s.1.writeBarTop A env s.2.1 s.2.2 (keyAt keys k) (subIdx.map (cells.value k))
-      pure (g, vt, s.2.2 + 1)) (g, vt, (0 : Int))
+    let (g, vt) ← st.2.1.writeOutput A env st.2.2 (subIdx.map (keyAt subs))
+      (cells.rows.map fun k => (keyAt keys k, subIdx.map (cells.value k)))
     let vt ← g.writeFooter vt 0 (ascii "F")
     pure (cells, g, vt)) (([] : Cells), g, VirtualTerm.new)
   pure (okLines vt)
@@ -173,12 +178,70 @@ def renderSpark (env : Env) (sc : Scaler) (fm : Fmt) (nrows ncols : Int) (trunc 
     pure (cells, s, vt)) (([] : Cells), s, VirtualTerm.new)
   pure (okLines vt)
 
-def parseStep (s : String) : Option (Int × List Bytes) :=
+/-! ### `render reduce`: the real `AccumulatingGroup` is driven with expressions of a tiny template
+language (literal bytes, `{N}`, `{.}`); this is its evaluation (scaffolding of the harness, not a model of
+the expression engine – that is C08–C11). -/
+
+/-- `{0}` = the whole element, `{N}` = its N-th NUL-separated part (empty beyond the end), `{.}` = the accumulator -/
+def evalTpl (elem cur : Bytes) (parts : List Bytes) : Nat → Bytes → Bytes
+  | 0, _ => []
+  | _, [] => []
+  | fuel + 1, b :: rest =>
+    if b = 123 then
+      let body := rest.takeWhile (· != 125)
+      let after := (rest.dropWhile (· != 125)).drop 1
+      let v := if body = [46] then cur
+        else match atoi body with
+          | some 0 => elem
+          | some n => parts.getD (n.toNat - 1) []
+          | none => []
+      v ++ evalTpl elem cur parts fuel after
+    else b :: evalTpl elem cur parts fuel rest
+
+def bytesLt : Bytes → Bytes → Bool
+  | [], [] => false
+  | [], _ :: _ => true
+  | _ :: _, [] => false
+  | a :: as, b :: bs => if a < b then true else if b < a then false else bytesLt as bs
+
+/-- `AccumulatingGroup.Sample(element)` for template expressions -/
+def reduceSample (gexprs dexprs : List Bytes) (init : Bytes) (st : List (Bytes × List Bytes)) (elem : Bytes) : List (Bytes × List Bytes) :=
+  let parts := splitByte 0 elem
+  let ev (cur tpl : Bytes) := evalTpl elem cur parts (tpl.length + 1) tpl
+  let key : Bytes := match gexprs with
+    | [] => []
+    | _ => (gexprs.map (ev [])).intersperse [0] |>.flatten
+  let old := match st.find? (·.1 == key) with
+    | some e => e.2
+    | none => dexprs.map fun _ => init
+  let data := (dexprs.zip old).map fun (tpl, cur) => ev cur tpl
+  if st.any (·.1 == key) then st.map (fun e => if e.1 == key then (key, data) else e) else st ++ [(key, data)]
+
+def renderReduce (env : Env) (nrows ncols : Int) (gnames gexprs dnames dexprs pool : List Bytes)
+    (phases : List (List (List Int))) : Res String := do
+  let r ← Reduce.new ncols nrows gnames dnames
+  let (r, vt) ← r.start env VirtualTerm.new
+  let (_, _, vt) ← phases.foldlM (fun (st : List (Bytes × List Bytes) × Reduce × VirtualTerm) ph => do
+    let groups := ph.foldl (fun g sm =>
+      reduceSample gexprs dexprs (ascii "i") g ((sm.map fun i => pool.getD (nat! i) []).intersperse [0]).flatten) st.1
+    -- aggr.Groups(sorting.ByName)
+    let sorted := groups.mergeSort (fun a b => !bytesLt b.1 a.1)
+    let (r, vt) ← st.2.1.render env st.2.2 sorted (ascii "F0") (ascii "F1")
+    pure (groups, r, vt)) (([] : List (Bytes × List Bytes)), r, vt)
+  pure (okLines vt)
+
+/-- a step of a `tablew` script: `<row>:<cells>` or `F<idx>:<hex line>` -/
+def parseStep (s : String) : Option TableOp :=
   match s.splitOn ":" with
-  | [n, cells] => do
-    let rn ← n.toInt?
-    let cs ← decHexList cells
-    pure (rn, cs)
+  | [n, cells] =>
+    if n.startsWith "F" then do
+      let idx ← (n.drop 1).toInt?
+      let line ← Hex.dec cells
+      pure (TableOp.footer idx line)
+    else do
+      let rn ← n.toInt?
+      let cs ← decHexList cells
+      pure (TableOp.row rn cs)
   | _ => none
 
 def handle : List String → String
@@ -226,15 +289,25 @@ def handle : List String → String
       let env : Env := { color := c, unicode := true }
       answer (do
         let t ← TableWriter.new mc mr
-        let (t, vt) ← steps.foldlM (fun (st : TableWriter × VirtualTerm) (s : Int × List Bytes) =>
-          st.1.writeRow env st.2 s.1 s.2) (t, VirtualTerm.new)
+        let (t, vt) ← TableWriter.runOps env (t, VirtualTerm.new) steps
         let vt ← t.writeFooter vt 0 (ascii "F")
         pure (okLines vt))
     | _, _, _, _ => "bad-args"
   | ["render", "histo", col, uni, sc, fm, bar, pct, maxLines, keys, ph] =>
     match bit col, bit uni, scaler? sc, fmt? fm, bit bar, bit pct, maxLines.toInt?, decHexList keys, phases? ph with
     | some c, some u, some k, some f, some b, some p, some ml, some ks, some phs =>
-      answer (renderHisto { color := c, unicode := u } k f b p ml ks phs)
+      answer (renderHisto { color := c, unicode := u } k f b p ml 0 false ks phs)
+    | _, _, _, _, _, _, _, _, _ => "bad-args"
+  | ["render", "histo2", col, uni, sc, fm, bar, pct, maxLines, atLeast, all, keys, ph] =>
+    match bit col, bit uni, scaler? sc, fmt? fm, bit bar, bit pct, maxLines.toInt?, atLeast.toInt?, bit all, decHexList keys, phases? ph with
+    | some c, some u, some k, some f, some b, some p, some ml, some al, some all, some ks, some phs =>
+      answer (renderHisto { color := c, unicode := u } k f b p ml al all ks phs)
+    | _, _, _, _, _, _, _, _, _, _, _ => "bad-args"
+  | ["render", "reduce", col, nrows, ncols, gnames, gexprs, dnames, dexprs, pool, ph] =>
+    match bit col, nrows.toInt?, ncols.toInt?, decHexList gnames, decHexList gexprs, decHexList dnames, decHexList dexprs,
+        decHexList pool, phases? ph with
+    | some c, some nr, some nc, some gn, some ge, some dn, some de, some pl, some phs =>
+      answer (renderReduce { color := c, unicode := true } nr nc gn ge dn de pl phs)
     | _, _, _, _, _, _, _, _, _ => "bad-args"
   | ["render", "bars", col, uni, sc, fm, stacked, barSize, keys, subs, ph] =>
     match bit col, bit uni, scaler? sc, fmt? fm, bit stacked, barSize.toInt?, decHexList keys, decHexList subs, phases? ph with
